@@ -80,6 +80,9 @@ def scenario(cfg, pop_ops, ro_ops, use_model=True, root=None):
         if model:
             model.send("ro 1")
             model.send("newcache %s" % ("-" if cfg.get("budget") is None else cfg["budget"]))
+        for r_ in roots:
+            if os.path.isdir(r_):
+                age_tree(r_)
         before = fsaudit.snapshot(roots)
         with fsaudit.Recorder(roots) as rec:
             for i, op in enumerate(ro_ops):
@@ -137,6 +140,14 @@ def scenario(cfg, pop_ops, ro_ops, use_model=True, root=None):
     return res
 
 
+def age_tree(root, when=1.0e9):
+    """a store that was populated long ago: every file and directory gets an old modification time"""
+    for d, dirs, files in os.walk(root, topdown=False):
+        for f in files:
+            os.utime(os.path.join(d, f), (when, when))
+        os.utime(d, (when, when))
+
+
 def rec_events():
     return list(fsaudit._state["events"])
 
@@ -182,7 +193,9 @@ def function_level(chk, root):
             stale = os.path.join(tmpd, "0a0a0a0a-1111-2222-3333-444444444444.link")
             open(stale, "w").write(os.path.join(data, "c", ".versions", "gone", "x"))
             os.utime(stale, (1.0e9, 1.0e9))
-            for source in ("arg", "config", "cluster-config"):
+            age_tree(data, 1.1e9)
+            os.utime(stale, (1.0e9, 1.0e9))
+            for source in ("arg", "config", "cluster-config", "replaced-in-repository"):
                 before_open = fsaudit.snapshot([data])
                 kw = dict(memory_cache_mb=budget) if budget else {}
                 if source == "cluster-config":
@@ -197,12 +210,21 @@ def function_level(chk, root):
                     assert mfns.ga(1) == 1
                     m.Environment.set(Environment(name="verif", base_dir=base, repos=[ConfigurationRepository(name="r", clusters={
                         "vc": FunctionCluster(config={"name": "vc", "storage": dict(scfg, readonly=True)})})]))
+                elif source == "replaced-in-repository":
+                    # one Environment object: the cluster is used while it is writable, then replaced, through the repository's
+                    # public `clusters` dictionary, by a cluster on the same path that is read-only
+                    from twosigma.memento import FunctionCluster
+                    env = env_with(FilesystemStorageBackend(path=data, **kw), base=base)
+                    m.Environment.set(env)
+                    assert mfns.ga(1) == 1 and env.get_cluster("vc") is not None
+                    env.repos[0].clusters["vc"] = FunctionCluster(name="vc", storage=FilesystemStorageBackend(path=data, read_only=True, **kw))
+                    age_tree(data, 1.1e9)
                 else:
                     st = (FilesystemStorageBackend(path=data, read_only=True, **kw) if source == "arg"
                           else FilesystemStorageBackend(config={"path": data, "readonly": True}, **kw))
                     m.Environment.set(env_with(st, base=base))
                 before = fsaudit.snapshot([data])
-                if source != "cluster-config" and before != before_open:
+                if source not in ("cluster-config", "replaced-in-repository") and before != before_open:
                     fails.append(dict(clause="no-mutation-under-storage-paths", level="function", when="opening the store read-only",
                                       budget=budget, source=source))
                 mfns.REC.calls.clear()
@@ -213,6 +235,14 @@ def function_level(chk, root):
                         outs.append("forget-accepted")
                     except ValueError:
                         outs.append("ValueError")
+                    # a result that is staged on disk while its body runs; the caller keeps it while the store is compared
+                    staged = mfns.gp(5)
+                    staged_ok = sorted(staged.list_keys()) == ["a", "b"] and staged.get("a") == [5, "a"]
+                    during = fsaudit.snapshot([data])
+                if not staged_ok or during != before:
+                    fails.append(dict(clause="no-mutation-under-storage-paths", level="function", when="while a computed on-disk partition is alive",
+                                      budget=budget, source=source, events=rec.mutations[:4]))
+                del staged
                 chk.case(["fn-level", budget, source], sample=dict(kind="function-level read-only", budget=budget, source=source, outs=str(outs)))
                 if outs != [1, [2, "gb"], 3, 3, [1, 4], "ValueError"]:
                     fails.append(dict(clause="read-only-answers", level="function", outs=str(outs), budget=budget, source=source))
